@@ -578,4 +578,5 @@ def check(ctx):
     rep.floor('R1', 'discretized ufunc scenarios', n, 40)
     c17b.legacy_rules(rep, model)
     c17b.wrapping_rules(rep, model)
+    c17b.pspace_protocol(rep, model)
     return rep
